@@ -11,7 +11,7 @@ from .. import hazards
 
 RULE = ("every strict, reserved and weak keyword of the Rust reference (editions 2015-2021; taken from the reference, not from "
         "graphql-client's table) and 24 case-style names x name position {response field, alias, variable, input-object field, "
-        "@oneOf member, enum value} x normalization {none, rust}: one tiny (schema, document) per combination, compiled by rustc "
+        "@oneOf member, enum value} x option state {normalization none, normalization rust, skip_serializing_none (field-like positions)}: one tiny (schema, document) per combination, compiled by rustc "
         "and probed with payloads / assignments whose keys are the exact GraphQL names. quick = a seeded third of the matrix, "
         "thorough = the whole matrix (exhaustive). `true`, `false`, `null` are not legal enum values in GraphQL and are skipped "
         "at that position. Non-trivial = every case; distinct by (name, position, normalization)")
@@ -19,7 +19,7 @@ RULE = ("every strict, reserved and weak keyword of the Rust reference (editions
 STYLES = ["fooBar", "foo_bar", "FooBar", "FOO_BAR", "_foo", "_Foo", "foo2bar", "a1", "x_1", "foo_", "fooBar_baz", "X", "iOS", "HTTPServer",
           "x", "aB", "AB", "a_b_c", "A_b", "fooID", "id", "ID_", "Type", "r"]
 POSITIONS = ["field", "alias", "variable", "input-field", "oneof-member", "enum-value"]
-FLOOR = {"cases": 900, "pos:field": 150, "pos:alias": 150, "pos:variable": 150, "pos:input-field": 150, "pos:oneof-member": 150, "pos:enum-value": 140, "keyword-cases": 600}
+FLOOR = {"cases": 1200, "pos:field": 150, "pos:alias": 150, "pos:variable": 150, "pos:input-field": 150, "pos:oneof-member": 150, "pos:enum-value": 140, "keyword-cases": 600}
 
 
 def make(name, pos, rust, cid, rng):
@@ -45,7 +45,7 @@ def make(name, pos, rust, cid, rng):
         s.add("In", {"kind": "input", "one_of": one, "fields": [[name, T("Int")], ["zz_other", T("String")]]})
         s.add("Query", {"kind": "object", "implements": [], "fields": [{"name": "x", "type": T("Int"), "args": [], "deprecated": None}]})
         doc = {"operations": [{"kind": "query", "name": "Q", "vars": [{"name": "i", "type": T("In"), "default": None}], "sel": [["field", None, "x", None, None]]}], "fragments": []}
-        exp = {"i": {name: 3}} if one else {"i": {name: 3, "zz_other": None}}
+        exp = {"i": {name: 3}} if (one or rust == "skip") else {"i": {name: 3, "zz_other": None}}
         vecs.append({"id": "v0", "kind": "vars", "target": "Q", "input": {"i": {name: 3}}, "expect": {"variables": exp}})
     elif pos == "enum-value":
         s.add("E", {"kind": "enum", "values": [name, "ZZ_OTHER_VALUE"]})
@@ -54,7 +54,7 @@ def make(name, pos, rust, cid, rng):
         vecs.append({"id": "r0", "kind": "resp", "target": "Q", "input": {"e": name}, "expect": {"ok": True, "reser": {"e": name}}, "label": "wire-string"})
         vecs.append({"id": "v0", "kind": "vars", "target": "Q", "input": {"v": name}, "expect": {"variables": {"v": name}}})
         vecs.append({"id": "e0", "kind": "enum", "target": "@enum", "input": name, "expect": {"known": True}})
-    opts = {"normalization": "rust"} if rust else {}
+    opts = {"normalization": "rust"} if rust is True else ({"skip_none": True} if rust == "skip" else {})
     c = C.make_case(cid, s, doc, rng, options=opts, fmt="sdl" if name not in ("true", "false", "null") else "sdl")
     c["from_string"] = True
     c["vectors"] = vecs
@@ -70,6 +70,8 @@ def matrix():
                 continue
             for rust in (False, True):
                 out.append((n, pos, rust))
+            if pos in ("field", "alias", "variable", "input-field"):
+                out.append((n, pos, "skip"))     # skip_serializing_none adds an attribute next to the rename
     return out
 
 
@@ -84,7 +86,7 @@ def execute(run, cases, tag="b0"):
         run.count("pos:" + c.get("position", "?"))
         if c.get("name") in names.KEYWORDS:
             run.count("keyword-cases")
-        label = "%s at %s (normalization %s)" % (c.get("name"), c.get("position"), "rust" if c.get("rust") else "none")
+        label = "%s at %s (%s)" % (c.get("name"), c.get("position"), {True: "normalization rust", "skip": "skip_serializing_none"}.get(c.get("rust"), "normalization none"))
         failed = None
         if g["outcome"] != "ok":
             failed = "generation-%s for %s: %s" % (g["outcome"], label, (g.get("message") or "")[:160])
@@ -140,10 +142,10 @@ def main(run):
     run.exhaustive = True   # the whole matrix compiles in ~20 s on 16 cores: both tiers enumerate it completely
     if not run.quick():
         # thorough adds every name once more with the other schema front-end (JSON) to the matrix
-        m = m + [(n, pos, "json") for (n, pos, rust) in m if not rust]
+        m = m + [(n, pos, "json") for (n, pos, rust) in m if rust is False]
     cs = []
     for i, (n, pos, rust) in enumerate(m):
-        c = make(n, pos, rust is True, "c%d" % i, run.rng)
+        c = make(n, pos, (True if rust is True else ("skip" if rust == "skip" else False)), "c%d" % i, run.rng)
         if rust == "json":
             from ..model import render_json
             c["schema_text"], c["schema_ext"], c["schema_format"] = render_json(Schema(c["schema_model"])), "json", "json"
